@@ -23,6 +23,53 @@ REL = 2e-4          # relative tolerance (float32 arithmetic of the engine), DES
 UNDERFLOW = 1e-15   # gradient tensors below this magnitude are in float32's squared-underflow range: not judged
 
 
+# sha256 of the definitions (comments / blank lines stripped) of the two generated files the whole-step model is built
+# from, as lifted from the pinned tree.  While both match, a disagreement between `advstep.fit` and the Fraction oracle
+# is a bug of this machinery (exit 2); after a source edit that changed a lifted file it is a broken tie (exit 1).
+PINNED_GEN_SHA256 = {"AdvProjection.lean": "238c40171dee892da779fa6c615ff5483a5b83c1d1eb2a7d8dc70b3fbbd0f26c", "AdvScheduleSrc.lean": "2a6782c3963fb6a11e55dd01c69785874c9377aa8b68efd6fe5be320e2bc5775",
+                     "AdvTrainStepSrc.lean": "cefa669fa6e1fefe837194c5593164707fcc237931452e7ebceea5938a844486"}
+# what `trainstep.applied` must print: buffers consistent, predictor applies combine(dLP/dW, dLA/dW), adversary applies dLA/dU
+WANT_APPLIED = "1 combine(1,0,0;0,1,0) 0,1,0"
+_GEN_STATE = {}
+
+
+def gen_fingerprint(name):
+    import hashlib
+    import os
+    from .. import leanrun
+    with open(os.path.join(leanrun.LEAN, "FairModel", "Generated", name)) as f:
+        txt = leanrun.strip_comments(f.read())
+    body = "\n".join(ln.rstrip() for ln in txt.splitlines() if ln.strip())
+    return hashlib.sha256(body.encode()).hexdigest()
+
+
+def gen_changed():
+    if "v" not in _GEN_STATE:
+        try:
+            _GEN_STATE["v"] = any(gen_fingerprint(k) != v for k, v in PINNED_GEN_SHA256.items())
+        except OSError:
+            _GEN_STATE["v"] = False
+    return _GEN_STATE["v"]
+
+
+def model_problem(msg):
+    if gen_changed():
+        return Problem("correspondence", "the whole-step model built from the LIFTED loop body / schedule departs from the "
+                       "documented update: " + msg, "C16.whole_step_sgd")
+    return Problem("harness", msg)
+
+
+def planned_steps(n, bs, ep, mi):
+    """closed form of the documented schedule without callbacks (None = rejected)"""
+    if ep == -1 and mi == -1:
+        return None
+    b = n if bs == -1 else bs
+    batches = -(-n // b)
+    epochs = -(-mi // batches) if ep == -1 else ep
+    total = epochs * batches
+    return total if mi == -1 else min(total, mi)
+
+
 # ------------------------------------------------------------------------------------------- data helpers
 def _labels(kind, style, idx):
     """class index / value -> the label handed to fairlearn"""
@@ -144,14 +191,23 @@ def _shape2(t):
 class CHECK(Check):
     pid = "C16"
     technique = ("Lean 4 theorems over the Adversarial model (projection algebra on tensors of any shape, tied to the "
-                 "source by a translator lifter) + correspondence of real PyTorch training steps with the compiled model")
+                 "source by translator lifters: loop body (adv_projection.py) and statement structure of train_step "
+                 "(adv_trainstep.py)) + the whole step / whole fit as a pure function (Model/AdvStep.lean) + correspondence of real "
+                 "PyTorch training steps and whole fits with the compiled model")
     level_text = ("Theorems (all tensor shapes and sizes, all alpha): g + alpha*dLA/dW is orthogonal to dLA/dW; the matrix "
                   "Frobenius product is the dot of the flattenings; the literal three-line loop body of both engines (lifted "
                   "from the Python source: inner-product kind, tiny kind, coordinate arithmetic) equals the normalised model; "
                   "sum-of-row-pair inner products coincide with Frobenius only for single rows (2x2 counter-witness); plain "
                   "SGD observation recovers the applied gradient; branch taken when dLA/dW = 0. Tie: real torch models trained "
                   "through partial_fit with plain SGD vs the compiled Lean model and an exact Fraction oracle on the same "
-                  "autograd gradients (rel. 2e-4). TensorFlow engine: lifted structurally only, NOT exercised (not installed).")
+                  "autograd gradients (rel. 2e-4). TensorFlow engine: lifted structurally only, NOT exercised (not installed). "
+                  "Whole step (all tensors of both players, optimisers as parameters): every optimiser is handed the engine's rule / "
+                  "dLA/dU (`whole_step_feeds_optimisers`), with SGD the parameters move along -lr*g and -lr*dLA/dU (`whole_step_sgd`), "
+                  "the lifted PyTorch step is total and has the documented direction per tensor; statement structure of train_step "
+                  "(zero_grad / backward / copies / loop / optimiser steps, data-flow dependencies of LP and LA) interpreted on symbolic "
+                  ".grad buffers: copies are exactly dLP/dW and dLA/dW and the adversary applies exactly dLA/dU whatever the buffers held "
+                  "before (`lifted_train_step_gradients`). Tie: whole `fit` runs on user modules with gradients recorded by tensor hooks "
+                  "vs the fold of the model's step over the LIFTED schedule (`advstep.fit`).")
     design_ref = "DESIGN.md section 4, C16"
     quick_cases = 2400
     thorough_cases = 20000
@@ -165,16 +221,26 @@ class CHECK(Check):
             "players given as constructor callable / 'SGD' keyword / instance, lr in {1/2,1/4,1/8,1/16,1/10}; 1-2 measured "
             "batches of 1..16 pool rows after an optional warm-up step; every batch has the pool's type_of_target (else "
             "fairlearn rejects it). distinct = distinct case; non-trivial = some predictor tensor has dLA/dW != 0. "
-            "Gradient tensors with max |entry| < 1e-15 (float32 squared-underflow range) are not judged (tagged).")
+            "Gradient tensors with max |entry| < 1e-15 (float32 squared-underflow range) are not judged (tagged). "
+            "kind=fit (22% of the cases): whole fit(shuffle=False) on user-supplied torch modules (0-1 hidden layers) with plain SGD "
+            "(lr 1/8, 1/10, 1/16), n in 4..12, batch_size in {-1, 1..n+1}, epochs in {-1,1,2,3}, max_iter in {-1,1..6}, at most 6 "
+            "steps; gradients of every backward pass recorded by tensor hooks.")
     explanation = ("theorems over the Lean model Adversarial (all shapes); correspondence: parameters after partial_fit vs "
                    "`adv.step torch` / `adv.sgd` of the compiled driver on exactly converted float32 gradients, rel 2e-4; "
                    "oracle: Fractions. The TensorFlow engine is covered only by the translator's structural lift of its "
-                   "projection expression (reduce_sum(multiply(.,.)) -> frobenius, finfo(float32).tiny); it is not executed.")
+                   "projection expression (reduce_sum(multiply(.,.)) -> frobenius, finfo(float32).tiny); it is not executed. "
+                   "kind=fit: parameters after fit vs `advstep.fit` (fold of the whole-step model over the schedule interpreted from the "
+                   "lifted source, on the hook-recorded gradients) and vs the same fold in Fractions; number of backward passes vs the "
+                   "documented number of steps; `trainstep.applied` (symbolic bookkeeping of the lifted train_step) vs the documented "
+                   "`combine(dLP/dW, dLA/dW)` / `dLA/dU`.")
     trusted = ("torch.autograd gradients (inputs of the model) and torch.optim.SGD (modelled as W - lr*g)",
                "the engine's loss objects (BCELoss / CrossEntropyLoss / MSELoss, read from backendEngine_) define LP and LA",
                "the float encoding of y / sensitive features (indicator of the larger class, one-hot over sorted classes) is "
                "recomputed by the harness from the documented rule",
-               "TensorFlow engine not executed (tensorflow/keras are not installed): structural lift only")
+               "TensorFlow engine not executed (tensorflow/keras are not installed): structural lift only",
+               "torch tensor hooks deliver, per backward pass, the gradient of that pass for every parameter (kind=fit)",
+               "harness/lifters/adv_trainstep.py: statement roles of train_step by shape (zero_grad / backward / list-comprehension "
+               "copies / loop / step) and autograd dependencies by data flow (`.detach()` cuts); PyTorch accumulates into .grad")
     assumptions = ("plain SGD optimisers (no momentum / weight decay)", "float32 models on CPU, one thread",
                    "batches have the same type_of_target as the first call's data",
                    "gradient tensors are not in float32's squared-underflow range (< 1e-15), else not judged")
@@ -199,8 +265,48 @@ class CHECK(Check):
         rng.shuffle(v)
         return v
 
+    def _fit_case(self, rng):
+        """whole `fit` on user-supplied torch modules with plain SGD: gradients of every step are recorded by tensor
+        hooks on the real autograd, the final parameters are compared with the fold of the model's step"""
+        d = rng.choice([1, 2, 3])
+        n = rng.randint(4, 12)          # `_values` needs n >= number of classes (<= 4)
+        ykind = rng.choice(["binary", "binary", "multiclass", "continuous"])
+        skind = rng.choice(["binary", "binary", "multiclass", "continuous"])
+        bs = rng.choice([-1, rng.randint(1, n), rng.randint(1, n), n + 1])
+        b = n if bs == -1 else bs
+        batches = -(-n // b)
+        ep = rng.choice([1, 1, 2, 3, -1])
+        mi = rng.choice([-1, -1, rng.randint(1, 6)])
+        if ep == -1 and mi == -1:
+            mi = rng.randint(1, 6)
+        while planned_steps(n, bs, ep, mi) > 6:
+            if ep > 1:
+                ep -= 1
+            else:
+                mi = 6
+        return {"kind": "fit", "d": d, "X": [[str(F(rng.randint(-8, 8), 4)) for _ in range(d)] for _ in range(n)],
+                "ykind": ykind, "ystyle": rng.choice(["int", "str"]), "y": self._values(rng, ykind, n),
+                "skind": skind, "sstyle": rng.choice(["int", "str"]), "sf": self._values(rng, skind, n),
+                "container": rng.choice(["ndarray", "ndarray", "pandas"]),
+                "constraint": rng.choice(["demographic_parity", "equalized_odds"]),
+                "pred": self._hidden(rng, None, True)[:1], "adv": self._hidden(rng, None, False)[:1],
+                "alpha": rng.choice(ALPHAS), "lr_p": rng.choice(("1/8", "1/16", "1/10")), "lr_a": rng.choice(("1/8", "1/16", "1/10")),
+                "seed": rng.randint(0, 10 ** 6), "bs": bs, "ep": ep, "mi": mi, "mode": "module", "opt": "callable", "warm": 0,
+                "steps": []}
+
     def generate(self, rng, tier):
         while True:
+            if rng.random() < 0.22:
+                c = self._fit_case(rng)
+                n = len(c["X"])
+                ok = True
+                for kind, vals in ((c["ykind"], c["y"]), (c["skind"], c["sf"])):
+                    t = _target_type(kind, vals)
+                    ok = ok and ((kind == "continuous" and t == "continuous") or (kind == "binary" and t == "binary" and len(set(vals)) == 2)
+                                 or (kind == "multiclass" and t == "multiclass"))
+                if ok and n >= 4 and len(c["y"]) == n and len(c["sf"]) == n:
+                    yield c
+                continue
             d = rng.choice([1, 2, 2, 3, 3, 4, 5, 6])
             n = rng.randint(4, 16)
             ykind = rng.choice(["binary", "binary", "multiclass", "continuous"])
@@ -232,7 +338,23 @@ class CHECK(Check):
             if valid(case):
                 yield case
 
+    def _shrink_fit(self, case):
+        for k, v in (("ep", 1), ("mi", -1), ("bs", -1), ("pred", []), ("adv", []), ("constraint", "demographic_parity"),
+                     ("container", "ndarray"), ("alpha", "1"), ("alpha", "0"), ("ystyle", "int"), ("sstyle", "int")):
+            if case[k] != v and not (k == "mi" and case["ep"] == -1):
+                yield dict(case, **{k: v})
+        if case["mi"] > 1:
+            yield dict(case, mi=case["mi"] - 1)
+        if case["ep"] > 1:
+            yield dict(case, ep=case["ep"] - 1)
+        if case["d"] > 1:
+            yield dict(case, d=case["d"] - 1, X=[r[:-1] for r in case["X"]])
+
     def shrink(self, case):
+        if case.get("kind") == "fit":
+            yield from self._shrink_fit(case)
+            return
+
         def emit(c):
             if valid(c) and c != case:
                 yield c
@@ -283,7 +405,62 @@ class CHECK(Check):
         yield from emit(dict(case, X=simple))
 
     # ------------------------------------------------------------------------------------------ implementation
+    def _impl_fit(self, case):
+        import numpy as np
+        import torch
+        torch.set_num_threads(1)
+        from fairlearn.adversarial import AdversarialFairnessClassifier, AdversarialFairnessRegressor
+        X = np.array([[float(F(v)) for v in r] for r in case["X"]], dtype=float)
+        yl = _labels(case["ykind"], case["ystyle"], case["y"])
+        sl = _labels(case["skind"], case["sstyle"], case["sf"])
+        if case["container"] == "pandas":
+            import pandas as pd
+            yb = pd.Series(yl, index=[f"r{i}" for i in range(len(yl))])
+            sb = pd.Series(sl, index=[f"r{i}" for i in range(len(sl))])
+        else:
+            yb, sb = np.array(yl), np.array(sl)
+        eo = case["constraint"] == "equalized_odds"
+        ny, ns = n_out(case["ykind"], case["y"]), n_out(case["skind"], case["sf"])
+        pm = _module(case["pred"], case["d"], ny, case["ykind"], case["seed"])
+        am = _module(case["adv"], ny * (2 if eo else 1), ns, case["skind"], case["seed"] + 1)
+        lr_p, lr_a = float(F(case["lr_p"])), float(F(case["lr_a"]))
+        pp, ap = list(pm.parameters()), list(am.parameters())
+        rec_p, rec_a = [[] for _ in pp], [[] for _ in ap]
+        for i, p in enumerate(pp):
+            p.register_hook(lambda g, i=i: rec_p[i].append(g.detach().clone()))
+        for i, p in enumerate(ap):
+            p.register_hook(lambda g, i=i: rec_a[i].append(g.detach().clone()))
+        cls = AdversarialFairnessRegressor if case["ykind"] == "continuous" else AdversarialFairnessClassifier
+        est = cls(backend="torch", predictor_model=pm, adversary_model=am, constraints=case["constraint"],
+                  alpha=float(F(case["alpha"])), batch_size=case["bs"], epochs=case["ep"], shuffle=False,
+                  predictor_optimizer=lambda m: torch.optim.SGD(m.parameters(), lr=lr_p),
+                  adversary_optimizer=lambda m: torch.optim.SGD(m.parameters(), lr=lr_a), random_state=case["seed"] % 1000)
+        est.max_iter = case["mi"]          # not a constructor parameter of the public classes
+        W0 = [p.detach().clone() for p in pp]
+        U0 = [p.detach().clone() for p in ap]
+        try:
+            est.fit(X, yb, sensitive_features=sb)
+        except RuntimeError:
+            # torch's BCELoss refuses NaN inputs: accepted as "training diverged" only if the parameters really are non-finite
+            if any(not bool(torch.isfinite(p).all()) for p in pp + ap):
+                return {"kind": "fit", "diverged": True}
+            raise
+        same = est.backendEngine_.predictor_model is pm and est.backendEngine_.adversary_model is am
+        k = len(rec_a[0]) if rec_a else 0
+        out = {"kind": "fit", "n_iter": int(est.n_iter_), "same_modules": bool(same), "hook_steps": k,
+               "hook_counts_ok": all(len(r) == 2 * k for r in rec_p) and all(len(r) == k for r in rec_a),
+               "W0": [{"shape": _shape2(w), "v": _fr(w)} for w in W0], "U0": [{"shape": _shape2(u), "v": _fr(u)} for u in U0],
+               "W1": [_fr(p) for p in pp], "U1": [_fr(p) for p in ap], "grads": []}
+        if out["hook_counts_ok"]:
+            for t in range(k):
+                out["grads"].append({"a": [_fr(rec_p[i][2 * t]) for i in range(len(pp))],
+                                     "b": [_fr(rec_p[i][2 * t + 1]) for i in range(len(pp))],
+                                     "u": [_fr(rec_a[i][t]) for i in range(len(ap))]})
+        return out
+
     def impl(self, case):
+        if case.get("kind") == "fit":
+            return self._impl_fit(case)
         import numpy as np
         import torch
         torch.set_num_threads(1)
@@ -385,7 +562,24 @@ class CHECK(Check):
     def _finite(t):
         return all(v != "nan" for k in ("W0", "a", "b") for v in t[k])
 
+    @staticmethod
+    def _fit_finite(o):
+        return (o.get("hook_counts_ok") and o["grads"]
+                and all(v != "nan" for t in o["W0"] + o["U0"] for v in t["v"])
+                and all(v != "nan" for g in o["grads"] for k in ("a", "b", "u") for t in g[k] for v in t))
+
+    def _fit_lines(self, case, o):
+        if not self._fit_finite(o):
+            return []
+        tl = lambda ts, vals: "|".join(self._mat(t["shape"], v) for t, v in zip(ts, vals))  # noqa: E731
+        W = tl(o["W0"], [t["v"] for t in o["W0"]])
+        U = tl(o["U0"], [t["v"] for t in o["U0"]])
+        gs = "@".join(tl(o["W0"], g["a"]) + "#" + tl(o["W0"], g["b"]) + "#" + tl(o["U0"], g["u"]) for g in o["grads"])
+        return ["trainstep.applied", f"advstep.fit {case['alpha']} {case['lr_p']} {case['lr_a']} {len(case['X'])} {case['bs']} {case['ep']} {case['mi']} {W} {U} {gs}"]
+
     def lines(self, case, o):
+        if case.get("kind") == "fit":
+            return self._fit_lines(case, o) if "grads" in o else []
         ls = []
         if "steps" not in o:
             return ls
@@ -401,12 +595,15 @@ class CHECK(Check):
                 if any(v == "nan" for k in ("U0", "u") for v in t[k]):
                     continue
                 ls.append(f"adv.sgd {self._mat(t['shape'], t['U0'])} {self._mat(t['shape'], t['u'])} {case['lr_a']}")
+        ls.append("trainstep.applied")
         return ls
 
     # ------------------------------------------------------------------------------------------ judging
     def judge(self, case, o, mo):
         if "crash" in o:
             return [Problem("correspondence", f"implementation crashed: {o}", "impl-total")]
+        if case.get("kind") == "fit":
+            return self._judge_fit(case, o, mo)
         probs = []
         alpha, lr_p, lr_a = F(case["alpha"]), F(case["lr_p"]), F(case["lr_a"])
         k = 0
@@ -513,6 +710,69 @@ class CHECK(Check):
                     want = self._mat(t["shape"], [proto.rat(x - lr_a * y) for x, y in zip(U0, u)])
                     if m_sgd != want:
                         probs.append(Problem("harness", f"{where}: model sgd {str(m_sgd)[:80]} vs oracle {want[:80]}"))
+        if mo is not None and len(mo) > k and mo[k] != WANT_APPLIED:
+            probs.append(model_problem(f"the statement structure lifted from train_step hands the optimisers {mo[k]}, documented {WANT_APPLIED}"))
+        return probs
+
+    def _judge_fit(self, case, o, mo):
+        """whole fit: final parameters = fold of the documented step over the scheduled slices (gradients from hooks)"""
+        probs = []
+        if o.get("diverged"):
+            return probs      # the generated learning rate made training overflow to NaN: nothing to compare (tagged)
+        alpha, lr_p, lr_a = F(case["alpha"]), F(case["lr_p"]), F(case["lr_a"])
+        want_k = planned_steps(len(case["X"]), case["bs"], case["ep"], case["mi"])
+        if not o["same_modules"]:
+            probs.append(Problem("correspondence", "fit did not train the user-supplied modules", "C16.fit-uses-modules"))
+            return probs
+        if o["n_iter"] != want_k or o["hook_steps"] != want_k or not o["hook_counts_ok"]:
+            probs.append(Problem("property", f"fit made {o['hook_steps']} backward passes of LA (n_iter_ = {o['n_iter']}); the documented "
+                                 f"schedule has {want_k} steps, each with one backward pass of LP and one of LA", "C16.one_step_per_slice"))
+            return probs
+        if not self._fit_finite(o):
+            return probs      # diverged (tagged)
+        W = [[F(v) for v in t["v"]] for t in o["W0"]]
+        U = [[F(v) for v in t["v"]] for t in o["U0"]]
+        tolW = [1e-12] * len(W)
+        tolU = [1e-12] * len(U)
+        for g in o["grads"]:
+            for i in range(len(W)):
+                a, b = [F(v) for v in g["a"][i]], [F(v) for v in g["b"][i]]
+                bb = sum(x * x for x in b)
+                if bb != 0 and float(max(abs(x) for x in b)) < UNDERFLOW:
+                    return probs      # float32 squared-underflow range: not judged (tagged)
+                if bb == 0:
+                    gg = a
+                else:
+                    c = sum(x * y for x, y in zip(b, a)) / bb
+                    gg = [x - c * y - alpha * y for x, y in zip(a, b)]
+                W[i] = [w - lr_p * x for w, x in zip(W[i], gg)]
+                na, nb = math.sqrt(float(sum(x * x for x in a))), math.sqrt(float(bb))
+                tolW[i] += float(lr_p) * REL * (na + float(alpha) * nb) + 4 * 2.0 ** -24 * max(abs(float(x)) for x in W[i])
+            for i in range(len(U)):
+                u = [F(v) for v in g["u"][i]]
+                U[i] = [w - lr_a * x for w, x in zip(U[i], u)]
+                tolU[i] += float(lr_a) * REL * math.sqrt(float(sum(x * x for x in u))) + 4 * 2.0 ** -24 * max(abs(float(x)) for x in U[i])
+        nan_after = any(v == "nan" for t in o["W1"] + o["U1"] for v in t)
+        if nan_after:
+            probs.append(Problem("property", "parameters became NaN during fit although every recorded gradient is finite", "C16.update_rule"))
+            return probs
+        for who, want, got, tol, rel in (("predictor", W, o["W1"], tolW, "C16.fit_is_fold_of_steps"),
+                                         ("adversary", U, o["U1"], tolU, "C16.fit_is_fold_of_steps")):
+            for i, (w, g1) in enumerate(zip(want, got)):
+                err = max(abs(float(x - F(y))) for x, y in zip(w, g1))
+                if err > tol[i]:
+                    probs.append(Problem("property", f"{who} tensor {i} after fit ({want_k} steps) differs by {err:.3e} (tolerance {tol[i]:.1e}) "
+                                         f"from the fold of the documented step (projected gradient / plain gradient, SGD) over the recorded "
+                                         f"autograd gradients", rel))
+                    break
+        if mo is not None and mo and mo[0] != WANT_APPLIED:
+            probs.append(model_problem(f"the statement structure lifted from train_step hands the optimisers {mo[0]}, documented {WANT_APPLIED}"))
+        if mo is not None and len(mo) > 1:
+            toks = mo[1].split(" ")
+            wantW = "|".join(self._mat(t["shape"], [proto.rat(x) for x in w]) for t, w in zip(o["W0"], W))
+            wantU = "|".join(self._mat(t["shape"], [proto.rat(x) for x in u]) for t, u in zip(o["U0"], U))
+            if toks != [str(want_k), wantW, wantU]:
+                probs.append(model_problem(f"advstep.fit gives {mo[1][:120]}, the fold of the documented step gives {want_k} {wantW[:60]} {wantU[:40]}"))
         return probs
 
     def known(self, case, problem, entries):
@@ -522,6 +782,15 @@ class CHECK(Check):
         return None
 
     def signature(self, case, o):
+        if case.get("kind") == "fit":
+            k = planned_steps(len(case["X"]), case["bs"], case["ep"], case["mi"])
+            tags = ["kind=fit", f"fit_steps={k}", f"y={case['ykind']}", f"sf={case['skind']}", case["constraint"],
+                    "fit_batch=-1" if case["bs"] == -1 else "fit_batch>0", "fit_max_iter" if case["mi"] != -1 else "fit_epochs"]
+            if o.get("diverged"):
+                tags.append("fit_diverged_not_judged")
+            if "grads" in o and not self._fit_finite(o):
+                tags.append("fit_not_judged_nonfinite")
+            return proto_key(case), ("grads" in o and bool(o["grads"])), tags
         tags = [f"y={case['ykind']}", f"sf={case['skind']}", case["constraint"], f"alpha={case['alpha']}",
                 f"mode={case['mode']}", f"opt={case['opt']}", f"container={case['container']}",
                 f"pred_hidden={len(case['pred'])}", f"adv_hidden={len(case['adv'])}", f"warm={case['warm']}",
